@@ -116,6 +116,10 @@ func (conn *Conn) recv() {
 			req := new(SrvReq)
 			select {
 			case req.Rc = <-conn.rchan:
+				// allocated before Tversion lowered the msize
+				if len(req.Rc.Buf) > int(conn.Msize) {
+					req.Rc.Buf = req.Rc.Buf[:conn.Msize]
+				}
 			default:
 				req.Rc = NewFcall(conn.Msize)
 			}
